@@ -180,6 +180,107 @@ Proof.
   rewrite R. rewrite IH. reflexivity.
 Qed.
 
+
+(* ------------------------------------------------------------------ wildcard terms (Appendix D, second half) *)
+
+Lemma occ_wild_inv : forall t p at_b run, occ true t at_b run p = true ->
+  exists pre post r, p = pre ++ post /\ prefix_ci t post = Some r /\ bnd_after r = true.
+Proof.
+  intros t. induction p as [|c p IH]; intros at_b run H; cbn in H.
+  - rewrite orb_false_r in H. apply andb_prop in H. destruct H as [_ Hh]. unfold hit in Hh.
+    destruct (prefix_ci t []) as [r|] eqn:E; [|discriminate]. exists [], [], r. auto.
+  - apply orb_prop in H. destruct H as [H | H].
+    + apply andb_prop in H. destruct H as [_ Hh]. unfold hit in Hh.
+      destruct (prefix_ci t (c :: p)) as [r|] eqn:E; [|discriminate]. exists [], (c :: p), r. auto.
+    + apply IH in H. destruct H as [pre [post [r [Hp [Hpre Hb]]]]].
+      exists (c :: pre), post, r. split; [cbn; rewrite Hp; reflexivity|]. auto.
+Qed.
+
+Definition all_word (w : str) : Prop := forall c, In c w -> is_word c = true.
+
+(* every string ends in a (possibly empty) run of word characters preceded by a delimiter or the start *)
+Lemma trailing_run : forall pre, exists pre0 w0, pre = pre0 ++ w0 /\ all_word w0 /\ bnd_before pre0.
+Proof.
+  induction pre as [|c pre IH] using rev_ind.
+  - exists [], []. split; [reflexivity|]. split; [intros c []|left; reflexivity].
+  - destruct IH as [pre0 [w0 [E [W B]]]]. destruct (is_word c) eqn:C.
+    + exists pre0, (w0 ++ [c]). split; [subst; rewrite app_assoc; reflexivity|]. split; [|assumption].
+      intros x Hx. apply in_app_or in Hx. destruct Hx as [Hx | [Hx | []]]; [apply W; assumption | subst; assumption].
+    + exists (pre ++ [c]), []. split; [rewrite app_nil_r; reflexivity|]. split; [intros x []|].
+      right. exists pre, c. split; [reflexivity|assumption].
+Qed.
+
+Lemma split_nw_all_word : forall w, all_word w -> split_nw w = [w].
+Proof.
+  induction w as [|c w IH]; intros H; cbn; [reflexivity|].
+  rewrite (H c (or_introl eq_refl)). rewrite IH; [reflexivity|]. intros x Hx. apply H. right. assumption.
+Qed.
+
+Lemma words_all_word : forall w, all_word w -> w <> [] -> words w = [w].
+Proof. intros w H N. unfold words. rewrite split_nw_all_word by assumption. destruct w; [contradiction|reflexivity]. Qed.
+
+(* the first piece of re.split and what follows it *)
+Lemma split_nw_head : forall t, exists u0 r, split_nw t = u0 :: r /\ all_word u0 /\
+  ((t = u0 /\ r = []) \/ exists d t', t = u0 ++ d :: t' /\ is_word d = false /\ r = split_nw t').
+Proof.
+  induction t as [|c t IH].
+  - exists [], []. split; [reflexivity|]. split; [intros c []|left; auto].
+  - destruct IH as [u0 [r [E [W H]]]]. cbn. destruct (is_word c) eqn:C.
+    + rewrite E. exists (c :: u0), r. split; [reflexivity|]. split.
+      * intros x [Hx | Hx]; [subst; assumption | apply W; assumption].
+      * destruct H as [[H1 H2] | [d [t' [H1 [H2 H3]]]]]; [left; subst; auto|].
+        right. exists d, t'. subst t. auto.
+    + exists [], (split_nw t). split; [reflexivity|]. split; [intros x []|].
+      right. exists c, t. auto.
+Qed.
+
+Lemma all_word_app : forall a b, all_word a -> all_word b -> all_word (a ++ b).
+Proof. intros a b Ha Hb x Hx. apply in_app_or in Hx. destruct Hx; [apply Ha | apply Hb]; assumption. Qed.
+
+Lemma ends_with_app : forall a u, ends_with (a ++ u) u = true.
+Proof.
+  intros a u. unfold ends_with. rewrite rev_app_distr. generalize (rev u) as v. intros v.
+  induction v as [|x v IH]; cbn; [reflexivity|]. rewrite N.eqb_refl. exact IH.
+Qed.
+
+(* a term accepted by the wildcard pattern: its first piece is the END of a whole word of the lower-cased path,
+   its other pieces are whole words *)
+Lemma wild_words : forall t p, lower_s t = t -> term_occurs true t p = true ->
+  exists u0 r, split_nw t = u0 :: r /\
+    (u0 <> [] -> exists w, In w (words (lower_s p)) /\ ends_with w u0 = true) /\
+    incl (filter nonempty r) (words (lower_s p)).
+Proof.
+  intros t p Ht H. unfold term_occurs in H. apply occ_wild_inv in H.
+  destruct H as [pre [post [r [Hp [Hpre Hb]]]]].
+  pose proof (prefix_ci_lower t post r Ht Hpre) as E.
+  assert (LP : lower_s p = lower_s pre ++ t ++ lower_s r).
+  { subst p. unfold lower_s at 1. rewrite map_app. fold (lower_s pre). fold (lower_s post). rewrite E. reflexivity. }
+  assert (BR : bnd_after (lower_s r) = true) by (rewrite bnd_after_lower; assumption).
+  destruct (trailing_run (lower_s pre)) as [pre0 [w0 [EP [W0 B0]]]].
+  destruct (split_nw_head t) as [u0 [rr [ES [WU HT]]]].
+  exists u0, rr. split; [assumption|].
+  destruct HT as [[HT1 HT2] | [d [t' [HT1 [HT2 HT3]]]]].
+  - (* the term is one run of word characters *)
+    subst rr. subst u0. split; [|intros x []].
+    intros NE. exists (w0 ++ t). split; [|apply ends_with_app].
+    rewrite LP, EP. rewrite <- app_assoc. rewrite words_app_bnd_before by assumption.
+    apply in_or_app. right. rewrite app_assoc. rewrite words_app_bnd_after by assumption.
+    apply in_or_app. left. rewrite words_all_word; [left; reflexivity | apply all_word_app; assumption |].
+    destruct w0; [cbn; assumption | discriminate].
+  - assert (TW : lower_s p = pre0 ++ (w0 ++ u0) ++ d :: (t' ++ lower_s r)).
+    { rewrite LP, EP, HT1. rewrite <- !app_assoc. cbn. reflexivity. }
+    split.
+    + intros NE. exists (w0 ++ u0). split; [|apply ends_with_app].
+      rewrite TW. rewrite words_app_bnd_before by assumption. apply in_or_app. right.
+      rewrite words_cut by assumption. apply in_or_app. left.
+      rewrite words_all_word; [left; reflexivity | apply all_word_app; assumption |].
+      destruct w0; [cbn; assumption | discriminate].
+    + subst rr. fold (words t'). intros x Hx. rewrite TW.
+      rewrite words_app_bnd_before by assumption. apply in_or_app. right.
+      rewrite words_cut by assumption. apply in_or_app. right.
+      rewrite words_app_bnd_after by assumption. apply in_or_app. left. assumption.
+Qed.
+
 (* ------------------------------------------------------------------ term map invariant *)
 
 Definition tm_inv (s : state) : Prop :=
@@ -226,52 +327,37 @@ Proof.
   intros s H x Hx w Hw. unfold prune in *. cbn in *. apply filter_In in Hx. destruct Hx as [Hx _]. eapply H; eassumption.
 Qed.
 
-Lemma tm_inv_rc_prune : forall s, tm_inv s -> tm_inv (rc_prune s).
-Proof.
-  intros s H x Hx w Hw. unfold rc_prune in *. cbn in *. apply filter_In in Hx. destruct Hx as [Hx _]. eapply H; eassumption.
-Qed.
-
 (* tm_inv only looks at keys and indexed *)
 Lemma tm_inv_ext : forall s s', keys s' = keys s -> indexed s' = indexed s -> tm_inv s -> tm_inv s'.
 Proof. intros s s' Hk Hi H x Hx w Hw. rewrite Hk. rewrite Hi in Hx. eapply H; eassumption. Qed.
 
-Lemma add_raw_tm : forall s p a m us, keys (add_raw s p a m us) = keys s /\ indexed (add_raw s p a m us) = indexed s.
-Proof.
-  intros. unfold add_raw. destruct (find_listed p (listed s)); [split; reflexivity|].
-  destruct (best_parent p (listed s) None); split; reflexivity.
-Qed.
-Lemma update_raw_tm : forall s p m us, keys (update_raw s p m us) = keys s /\ indexed (update_raw s p m us) = indexed s.
-Proof. intros. unfold update_raw. destruct (find_listed p (listed s)); split; reflexivity. Qed.
-
-Lemma tm_inv_add : forall s p a m us, tm_inv s -> tm_inv (add_raw s p a m us).
-Proof. intros. destruct (add_raw_tm s p a m us). eapply tm_inv_ext; eassumption. Qed.
-Lemma tm_inv_update : forall s p m us, tm_inv s -> tm_inv (update_raw s p m us).
-Proof. intros. destruct (update_raw_tm s p m us). eapply tm_inv_ext; eassumption. Qed.
-
-Lemma tm_inv_remove : forall s p, tm_inv s -> tm_inv (remove_raw s p).
-Proof.
-  intros s p H. unfold remove_raw. destruct (find_listed p (listed s)); [|assumption].
-  apply tm_inv_cleanup. eapply tm_inv_ext; [| |exact H]; reflexivity.
-Qed.
-
-Lemma tm_inv_scan : forall s p disk, tm_inv s -> tm_inv (scan_raw s p disk).
-Proof.
-  intros s p disk H. unfold scan_raw. destruct (find_listed p (listed s)); [|assumption].
-  apply tm_inv_cleanup. apply tm_inv_build. apply tm_inv_rc_prune. eapply tm_inv_ext; [| |exact H]; reflexivity.
-Qed.
-
-Lemma tm_inv_load_entry : forall s e, tm_inv s -> tm_inv (load_entry s e).
-Proof.
-  intros s [[[p a] m] us] H. unfold load_entry. destruct (find_listed p (listed s)); [apply tm_inv_update | apply tm_inv_add]; assumption.
-Qed.
-
 Lemma tm_inv_fold_build : forall ds s, tm_inv s -> tm_inv (fold_left (fun st d => build_term_map st (ditems d)) ds s).
 Proof. induction ds as [|d ds IH]; intros s H; cbn; [assumption|]. apply IH. apply tm_inv_build. assumption. Qed.
 
-Lemma tm_inv_load : forall s es, tm_inv s -> tm_inv (load_raw s es).
+Lemma tm_inv_rebuild : forall s, tm_inv (rebuild s).
+Proof. intros s. unfold rebuild. apply tm_inv_fold_build. intros x []. Qed.
+
+Lemma tm_inv_add : forall s p a m us, tm_inv s -> tm_inv (add_raw s p a m us).
 Proof.
-  intros s es H. unfold load_raw. apply tm_inv_fold_build. intros x Hx. cbn in Hx. destruct Hx.
+  intros s p a m us H. unfold add_raw. destruct (find_listed p (listed s)); [assumption|].
+  destruct (best_parent p (listed s) None).
+  - apply tm_inv_build. eapply tm_inv_ext; [| |exact H]; reflexivity.
+  - eapply tm_inv_ext; [| |exact H]; reflexivity.
 Qed.
+Lemma tm_inv_update : forall s p m us, tm_inv s -> tm_inv (update_raw s p m us).
+Proof.
+  intros s p m us H. unfold update_raw. destruct (find_listed p (listed s)); [|assumption].
+  eapply tm_inv_ext; [| |exact H]; reflexivity.
+Qed.
+Lemma tm_inv_remove : forall s p, tm_inv s -> tm_inv (remove_raw s p).
+Proof. intros s p H. unfold remove_raw. destruct (find_listed p (listed s)); [apply tm_inv_rebuild | assumption]. Qed.
+Lemma tm_inv_scan : forall s p disk, tm_inv s -> tm_inv (scan_raw s p disk).
+Proof.
+  intros s p disk H. unfold scan_raw. destruct (find_listed p (listed s)); [|assumption].
+  apply tm_inv_cleanup. apply tm_inv_build. apply tm_inv_prune. eapply tm_inv_ext; [| |exact H]; reflexivity.
+Qed.
+Lemma tm_inv_load : forall s es, tm_inv (load_raw s es).
+Proof. intros. unfold load_raw. apply tm_inv_rebuild. Qed.
 
 Lemma tm_inv_step : forall s o, tm_inv s -> tm_inv (step s o).
 Proof.
@@ -280,7 +366,7 @@ Proof.
   - apply tm_inv_remove; assumption.
   - apply tm_inv_update; assumption.
   - apply tm_inv_scan; assumption.
-  - apply tm_inv_load; assumption.
+  - apply tm_inv_load.
 Qed.
 
 Lemma tm_inv_run_from : forall ops s, tm_inv s -> tm_inv (run_from s ops).
@@ -289,43 +375,27 @@ Proof. unfold run_from. induction ops as [|o ops IH]; intros s H; cbn; [assumpti
 Lemma termmap_inv : forall ops, tm_inv (run ops).
 Proof. intros. unfold run. apply tm_inv_run_from. intros x Hx. destruct Hx. Qed.
 
-(* after a scan every item of the scanned directory is filed in the term map (up to Python equality) *)
-Lemma index_item_has : forall s x, existsb (item_eq x) (indexed (index_item s x)) = true.
-Proof.
-  intros s x. unfold index_item. cbn. destruct (existsb (item_eq x) (indexed s)) eqn:E; [assumption|].
-  rewrite existsb_app. cbn. unfold item_eq at 2. rewrite !eqb_path_refl, eqb_str_refl, N.eqb_refl. cbn. apply orb_true_r.
-Qed.
-Lemma index_item_mono : forall s y x, existsb (item_eq x) (indexed s) = true -> existsb (item_eq x) (indexed (index_item s y)) = true.
-Proof.
-  intros s y x H. unfold index_item. cbn. destruct (existsb (item_eq y) (indexed s)); [assumption|].
-  rewrite existsb_app. rewrite H. reflexivity.
-Qed.
-Lemma build_mono : forall its s x, existsb (item_eq x) (indexed s) = true -> existsb (item_eq x) (indexed (build_term_map s its)) = true.
-Proof.
-  unfold build_term_map. induction its as [|y its IH]; intros s x H; cbn; [assumption|]. apply IH. apply index_item_mono. assumption.
-Qed.
-Lemma build_has : forall its s x, In x its -> existsb (item_eq x) (indexed (build_term_map s its)) = true.
-Proof.
-  unfold build_term_map. induction its as [|y its IH]; intros s x H; cbn; [destruct H|].
-  destruct H as [H | H].
-  - subst. apply (build_mono its). apply index_item_has.
-  - apply IH. assumption.
-Qed.
-
 (* ------------------------------------------------------------------ prefilter *)
 
-Lemma incl_keys_all : forall ks l, (forall u, In u l -> In u ks) -> incl_keys ks l = Some l.
+Definition all_sat (x : item) (cl : list (list str)) : Prop := forall alts, In alts cl -> satisfies x alts = true.
+
+Lemma incl_keys_all : forall ks l x, (forall u, In u l -> In u ks) -> (forall u, In u l -> In u (item_words x)) ->
+  exists cl, incl_keys ks l = Some cl /\ all_sat x cl.
 Proof.
-  induction l as [|u l IH]; intros H; cbn; [reflexivity|].
-  assert (M : mem_str u ks = true) by (apply mem_str_In; apply H; left; reflexivity).
-  rewrite M. rewrite IH; [reflexivity|]. intros v Hv. apply H. right. assumption.
+  induction l as [|u l IH]; intros x H1 H2; cbn.
+  - exists []. split; [reflexivity|]. intros a [].
+  - assert (M : mem_str u ks = true) by (apply mem_str_In; apply H1; left; reflexivity). rewrite M.
+    destruct (IH x) as [cl [E S]]; [intros v Hv; apply H1; right; assumption | intros v Hv; apply H2; right; assumption|].
+    rewrite E. exists ([u] :: cl). split; [reflexivity|].
+    intros alts [Ha | Ha]; [|apply S; assumption]. subst alts. unfold satisfies. cbn. unfold filed_under.
+    assert (M2 : mem_str u (item_words x) = true) by (apply mem_str_In; apply H2; left; reflexivity). rewrite M2. reflexivity.
 Qed.
 
-Lemma collect_all : forall A (f : A -> option (list str)) (P : str -> Prop) l,
-  (forall t, In t l -> exists r, f t = Some r /\ forall u, In u r -> P u) ->
-  exists kl, collect f l = Some kl /\ forall u, In u kl -> P u.
+Lemma collect_all : forall A (f : A -> option (list (list str))) x l,
+  (forall t, In t l -> exists r, f t = Some r /\ all_sat x r) ->
+  exists cl, collect f l = Some cl /\ all_sat x cl.
 Proof.
-  intros A f P. induction l as [|t l IH]; intros H; cbn.
+  intros A f x. induction l as [|t l IH]; intros H; cbn.
   - exists []. split; [reflexivity|]. intros u [].
   - destruct (H t (or_introl eq_refl)) as [r [Hr Pr]].
     destruct IH as [kl [Hk Pk]]; [intros t' Ht'; apply H; right; assumption|].
@@ -333,20 +403,44 @@ Proof.
     intros u Hu. apply in_app_or in Hu. destruct Hu; [apply Pr | apply Pk]; assumption.
 Qed.
 
-Definition lowered (q : query) : Prop := forall t, In t (q_incl q) -> lower_s t = t.
+Definition lowered (q : query) : Prop :=
+  (forall t, In t (q_incl q) -> lower_s t = t) /\ (forall t, In t (q_wild q) -> lower_s t = t).
 
-Lemma prefilter_sound_partial : forall s q x,
-  tm_inv s -> q_wild q = [] -> lowered q -> In x (indexed s) ->
+Lemma wild_keys_ok : forall s x t, tm_inv s -> In x (indexed s) -> lower_s t = t -> term_occurs true t (qpath x) = true ->
+  exists r, wild_keys (keys s) t = Some r /\ all_sat x r.
+Proof.
+  intros s x t Hinv Hx Ht Ho. destruct (wild_words t (qpath x) Ht Ho) as [u0 [rr [ES [HF HR]]]].
+  unfold wild_keys. rewrite ES.
+  destruct (incl_keys_all (keys s) (filter nonempty rr) x) as [cl [EC SC]].
+  { intros u Hu. apply (Hinv x Hx). unfold item_words. apply HR. assumption. }
+  { intros u Hu. unfold item_words. apply HR. assumption. }
+  rewrite EC. unfold wild_first. destruct u0 as [|c0 u0'].
+  - exists cl. split; [reflexivity|assumption].
+  - destruct HF as [w [Hw He]]; [discriminate|].
+    assert (Hk : In w (filter (fun k => ends_with k (c0 :: u0')) (keys s))).
+    { apply filter_In. split; [apply (Hinv x Hx); exact Hw | assumption]. }
+    destruct (filter (fun k => ends_with k (c0 :: u0')) (keys s)) as [|k0 m] eqn:EF; [destruct Hk|].
+    exists ((k0 :: m) :: cl). split; [reflexivity|].
+    intros alts [Ha | Ha]; [|apply SC; assumption]. subst alts. unfold satisfies. apply existsb_exists.
+    exists w. split; [assumption|]. unfold filed_under. apply mem_str_In. exact Hw.
+Qed.
+
+(* prefilter soundness, all queries: what the regular expressions accept is never dropped by the term-map pass *)
+Lemma prefilter_sound : forall s q x,
+  tm_inv s -> lowered q -> In x (indexed s) ->
   (forall t, In t (q_incl q) -> term_occurs false t (qpath x) = true) ->
+  (forall t, In t (q_wild q) -> term_occurs true t (qpath x) = true) ->
   In x (prefilter s q).
 Proof.
-  intros s q x Hinv Hw Hl Hx Hocc. unfold prefilter, prefilter_keys. rewrite Hw. cbn.
-  destruct (collect_all str (fun t => incl_keys (keys s) (words t)) (fun u => In u (item_words x)) (q_incl q)) as [kl [Hk Pk]].
-  { intros t Ht. exists (words t). split.
-    - apply incl_keys_all. intros u Hu. apply (Hinv x Hx). unfold item_words. apply (plain_words t (qpath x)); auto.
+  intros s q x Hinv [Hl1 Hl2] Hx Hocc Hw. unfold prefilter, prefilter_keys.
+  destruct (collect_all str (fun t => incl_keys (keys s) (words t)) x (q_incl q)) as [k1 [E1 S1]].
+  { intros t Ht. apply incl_keys_all.
+    - intros u Hu. apply (Hinv x Hx). unfold item_words. apply (plain_words t (qpath x)); auto.
     - intros u Hu. unfold item_words. apply (plain_words t (qpath x)); auto. }
-  rewrite Hk. rewrite app_nil_r. apply filter_In. split; [assumption|].
-  apply forallb_forall. intros k Hkk. unfold filed_under. apply mem_str_In. apply Pk. assumption.
+  destruct (collect_all str (wild_keys (keys s)) x (q_wild q)) as [k2 [E2 S2]].
+  { intros t Ht. apply wild_keys_ok; auto. }
+  rewrite E1, E2. apply filter_In. split; [assumption|].
+  apply forallb_forall. intros alts Ha. apply in_app_or in Ha. destruct Ha; [apply S1 | apply S2]; assumption.
 Qed.
 
 (* ------------------------------------------------------------------ query *)
@@ -372,30 +466,30 @@ Lemma query_sound : forall s q ph n x, In x (query_items s q ph n) ->
   In x (indexed s) /\ matches q x = true /\ phrase_free ph x = true.
 Proof. intros s q ph n x H. apply query_all_sound. unfold query_items in H. eapply firstn_In; eassumption. Qed.
 
-Lemma matches_incl : forall q x, matches q x = true -> forall t, In t (q_incl q) -> term_occurs false t (qpath x) = true.
+Lemma matches_parts : forall q x, matches q x = true ->
+  (forall t, In t (q_incl q) -> term_occurs false t (qpath x) = true) /\
+  (forall t, In t (q_wild q) -> term_occurs true t (qpath x) = true).
 Proof.
-  intros q x H t Ht. unfold matches in H. apply andb_prop in H. destruct H as [H _]. apply andb_prop in H. destruct H as [H _].
-  rewrite forallb_forall in H. apply H. assumption.
+  intros q x H. unfold matches in H. apply andb_prop in H. destruct H as [H _]. apply andb_prop in H. destruct H as [H1 H2].
+  rewrite forallb_forall in H1, H2. split; assumption.
 Qed.
 
-Lemma query_all_exact_partial : forall s q ph x,
-  tm_inv s -> q_wild q = [] -> q_incl q <> [] -> lowered q ->
+Lemma query_all_exact : forall s q ph x,
+  tm_inv s -> has_inclusion q = true -> lowered q ->
   (In x (query_all s q ph) <-> In x (indexed s) /\ matches q x = true /\ phrase_free ph x = true).
 Proof.
-  intros s q ph x Hinv Hw Hne Hl. split; [apply query_all_sound|].
-  intros [Hx [Hm Hp]]. unfold query_all.
-  assert (Hi : has_inclusion q = true) by (unfold has_inclusion; destruct (q_incl q); [contradiction | reflexivity]).
-  rewrite Hi. apply filter_In. split.
-  - apply prefilter_sound_partial; auto. apply matches_incl. assumption.
+  intros s q ph x Hinv Hi Hl. split; [apply query_all_sound|].
+  intros [Hx [Hm Hp]]. unfold query_all. rewrite Hi. apply filter_In. split.
+  - destruct (matches_parts q x Hm). apply prefilter_sound; auto.
   - rewrite Hm, Hp. reflexivity.
 Qed.
 
-Lemma query_exact_partial : forall s q ph n x,
-  tm_inv s -> q_wild q = [] -> q_incl q <> [] -> lowered q -> length (query_all s q ph) <= n ->
+Lemma query_exact : forall s q ph n x,
+  tm_inv s -> has_inclusion q = true -> lowered q -> length (query_all s q ph) <= n ->
   (In x (query_items s q ph n) <-> In x (indexed s) /\ matches q x = true /\ phrase_free ph x = true).
 Proof.
-  intros s q ph n x Hinv Hw Hne Hl Hn. unfold query_items. rewrite firstn_all2 by assumption.
-  apply query_all_exact_partial; assumption.
+  intros s q ph n x Hinv Hi Hl Hn. unfold query_items. rewrite firstn_all2 by assumption.
+  apply query_all_exact; assumption.
 Qed.
 
 Lemma cap : forall s q ph n,
@@ -412,13 +506,19 @@ Proof.
   apply in_app_or in H. destruct H as [H | [H | []]]; [right; assumption | left; symmetry; assumption].
 Qed.
 
+Lemma lower_tl : forall l, lower_s (tl (lower_s l)) = tl (lower_s l).
+Proof. destruct l as [|a l]; [reflexivity|]. cbn. apply lower_s_idem. Qed.
+
 Lemma parse_term_lowered : forall q term, lowered q -> lowered (parse_term q term).
 Proof.
-  intros q term H. unfold parse_term. destruct (negb (existsb is_word (lower_s term))); [assumption|].
-  destruct term as [|c term]; [assumption|].
-  destruct (N.eqb c STAR); [exact H|]. destruct (N.eqb c DASH); [exact H|].
-  intros t Ht. cbn in Ht. apply add_term_In in Ht. destruct Ht as [Ht | Ht]; [|apply H; assumption].
-  subst t. exact (lower_s_idem (c :: term)).
+  intros q term [H1 H2]. unfold parse_term. destruct (negb (existsb is_word (lower_s term))); [split; assumption|].
+  destruct term as [|c0 term]; [split; assumption|].
+  destruct (N.eqb c0 STAR).
+  - split; [exact H1|]. intros t Ht. cbn [q_wild] in Ht. apply add_term_In in Ht. destruct Ht as [Ht | Ht]; [|apply H2; assumption].
+    subst t. exact (lower_tl (c0 :: term)).
+  - destruct (N.eqb c0 DASH); [split; assumption|].
+    split; [|exact H2]. intros t Ht. cbn [q_incl] in Ht. apply add_term_In in Ht. destruct Ht as [Ht | Ht]; [|apply H1; assumption].
+    subst t. exact (lower_s_idem (c0 :: term)).
 Qed.
 
 Lemma parse_lowered : forall s, lowered (parse s).
@@ -426,56 +526,41 @@ Proof.
   intros s. unfold parse. generalize (split_ws s). intros l.
   assert (G : forall l q, lowered q -> lowered (fold_left parse_term l q)).
   { induction l0 as [|t l0 IH]; intros q H; cbn; [assumption|]. apply IH. apply parse_term_lowered. assumption. }
-  apply G. intros t [].
+  apply G. split; intros t [].
 Qed.
 
-(* ------------------------------------------------------------------ refutations (finding F04, F05b) *)
+(* ------------------------------------------------------------------ paths *)
 
-Definition c (s : list nat) : str := map N.of_nat s.
-Definition w_d := c [100]. Definition w_sing := c [115;105;110;103;46;109;112;51]. Definition w_ring := c [114;105;110;103;46;109;112;51].
-Definition w_ing := c [105;110;103].
-Definition ops_f04 : list op :=
-  [Add [w_d] (c [97]) Everyone []; Scan [w_d] [([w_d; w_sing], 5%N); ([w_d; w_ring], 6%N)]].
-Definition q_f04 : query := mkQuery [] [w_ing] [].
-
-Lemma prefilter_sound_refuted : exists ops q x,
-  In x (indexed (run ops)) /\ matches q x = true /\ ~ In x (prefilter (run ops) q).
+Lemma pp_refl : forall a, path_prefix a a = true.
+Proof. unfold path_prefix. induction a; cbn; [reflexivity|]. rewrite eqb_str_refl. assumption. Qed.
+Lemma pp_app : forall a b, path_prefix a (a ++ b) = true.
+Proof. unfold path_prefix. induction a; intros b; cbn; [reflexivity|]. rewrite eqb_str_refl. apply IHa. Qed.
+Lemma pp_trans : forall a b c, path_prefix a b = true -> path_prefix b c = true -> path_prefix a c = true.
 Proof.
-  exists ops_f04, q_f04, (mkItem 0 [w_d] [] w_sing 5%N).
-  split; [vm_compute; left; reflexivity|]. split; [vm_compute; reflexivity|]. vm_compute. intros [].
+  unfold path_prefix. induction a as [|x a IH]; intros b c H1 H2; cbn in *; [reflexivity|].
+  destruct b as [|y b]; [discriminate|]. destruct c as [|z c]; [cbn in H2; discriminate|]. cbn in H2.
+  apply andb_prop in H1. destruct H1 as [E1 H1]. apply andb_prop in H2. destruct H2 as [E2 H2].
+  apply eqb_str_true in E1. apply eqb_str_true in E2. subst. rewrite eqb_str_refl. cbn. eapply IH; eassumption.
 Qed.
-
-Lemma query_exact_refuted : exists ops q x n,
-  length (query_all (run ops) q []) <= n /\
-  In x (indexed (run ops)) /\ matches q x = true /\ phrase_free [] x = true /\ ~ In x (query_items (run ops) q [] n).
+Lemma pp_length : forall a b, path_prefix a b = true -> length a <= length b.
 Proof.
-  exists ops_f04, q_f04, (mkItem 0 [w_d] [] w_sing 5%N), 100.
-  split; [vm_compute; lia|]. split; [vm_compute; left; reflexivity|].
-  split; [vm_compute; reflexivity|]. split; [reflexivity|]. vm_compute. intros [].
+  unfold path_prefix. induction a as [|x a IH]; intros b H; cbn in *; [lia|].
+  destruct b as [|y b]; [discriminate|]. apply andb_prop in H. destruct H as [_ H]. apply IH in H. cbn. lia.
 Qed.
-
-(* "only files of shared directories are returned" *)
-Definition w_P := c [80]. Definition w_C := c [67]. Definition w_top := c [116;111;112]. Definition w_deep := c [100;101;101;112].
-Definition ops_zombie : list op :=
-  [Add [w_P] (c [97]) Everyone []; Scan [w_P] [([w_P; w_top], 5%N); ([w_P; w_C; w_deep], 6%N)];
-   Add [w_P; w_C] (c [98]) Everyone []; Remove [w_P]].
-
-Lemma query_only_listed_refuted : exists ops q x,
-  In x (query_items (run ops) q [] 100) /\ ~ In x (listed_items (run ops)).
+Lemma pp_cmp : forall a b c, path_prefix a c = true -> path_prefix b c = true -> length a <= length b -> path_prefix a b = true.
 Proof.
-  exists ops_zombie, (mkQuery [w_top] [] []), (mkItem 0 [w_P] [] w_top 5%N).
-  split; [vm_compute; left; reflexivity|]. vm_compute. intros [H | []]. discriminate H.
+  unfold path_prefix. induction a as [|x a IH]; intros b c H1 H2 L; cbn in *; [reflexivity|].
+  destruct c as [|z c]; [discriminate|]. destruct b as [|y b]; [cbn in L; lia|]. cbn in H2.
+  apply andb_prop in H1. destruct H1 as [E1 H1]. apply andb_prop in H2. destruct H2 as [E2 H2].
+  apply eqb_str_true in E1. apply eqb_str_true in E2. subst. rewrite eqb_str_refl. cbn. eapply IH; try eassumption. cbn in L. lia.
 Qed.
-
-(* F05: after adding a nested directory the moved item still points at (and is named relative to) the parent *)
-Lemma owner_pointer_refuted : exists ops d x,
-  In d (listed (run ops)) /\ In x (ditems d) /\ oid x <> did d /\ opath x <> dpath d.
+Lemma pp_eq : forall a b, path_prefix a b = true -> length b <= length a -> a = b.
 Proof.
-  exists (firstn 3 ops_zombie), (mkDir 1 [w_P; w_C] (c [98]) Everyone [] [mkItem 0 [w_P] [w_C] w_deep 6%N]), (mkItem 0 [w_P] [w_C] w_deep 6%N).
-  split; [vm_compute; right; left; reflexivity|]. split; [left; reflexivity|]. split; cbn; [lia | discriminate].
+  unfold path_prefix. induction a as [|x a IH]; intros b H L; cbn in *.
+  - destruct b; [reflexivity | cbn in L; lia].
+  - destruct b as [|y b]; [discriminate|]. apply andb_prop in H. destruct H as [E H]. apply eqb_str_true in E. subst.
+    f_equal. apply IH; [assumption | cbn in L; lia].
 Qed.
-
-(* ------------------------------------------------------------------ scan *)
 
 Lemma is_prefix_split : forall (a b : path), path_prefix a b = true -> b = a ++ skipn (length a) b.
 Proof.
@@ -490,11 +575,368 @@ Proof.
   intros x y H. unfold item_eq in H. repeat (apply andb_prop in H; destruct H as [H ?]).
   apply eqb_path_true in H. apply eqb_path_true in H2. apply eqb_str_true in H1. apply N.eqb_eq in H0. tauto.
 Qed.
-
-Lemma item_eq_abs : forall x y, item_eq x y = true -> abs_path x = abs_path y /\ imtime x = imtime y /\ opath x = opath y /\ qpath x = qpath y.
+Lemma item_eq_abs : forall x y, item_eq x y = true ->
+  abs_path x = abs_path y /\ imtime x = imtime y /\ opath x = opath y /\ qpath x = qpath y /\ dir_of x = dir_of y.
 Proof.
   intros x y H. apply item_eq_fields in H. destruct H as [H1 [H2 [H3 H4]]].
-  unfold abs_path, qpath. rewrite H1, H2, H3. tauto.
+  unfold abs_path, dir_of, qpath. rewrite H1, H2, H3. tauto.
+Qed.
+Lemma item_same_eq : forall x y, item_same x y = true -> x = y.
+Proof.
+  intros [o1 p1 s1 n1 m1] [o2 p2 s2 n2 m2] H. unfold item_same in H. apply andb_prop in H. destruct H as [H1 H2].
+  apply Nat.eqb_eq in H1. apply item_eq_fields in H2. cbn in *. destruct H2 as [A [B [C D]]]. subst. reflexivity.
+Qed.
+
+(* re-creating an item for a directory that contains it keeps the file it stands for *)
+Lemma rehome_spec : forall t x, path_prefix (dpath t) (dir_of x) = true ->
+  dir_of (rehome t x) = dir_of x /\ abs_path (rehome t x) = abs_path x /\ oid (rehome t x) = did t /\
+  opath (rehome t x) = dpath t /\ imtime (rehome t x) = imtime x.
+Proof.
+  intros t x H. assert (D : dir_of (rehome t x) = dir_of x).
+  { unfold rehome, dir_of at 1. cbn. symmetry. apply is_prefix_split. assumption. }
+  split; [assumption|]. split; [unfold abs_path; rewrite D; reflexivity|]. cbn. auto.
+Qed.
+
+Lemma union_eq_In : forall b a x, In x (union_eq a b) -> In x a \/ In x b.
+Proof.
+  induction b as [|y b IH]; intros a x H; cbn in H; [left; assumption|].
+  destruct (existsb (item_eq y) (union_eq a b)).
+  - apply IH in H. destruct H; [left | right; right]; assumption.
+  - apply in_app_or in H. destruct H as [H | [H | []]].
+    + apply IH in H. destruct H; [left | right; right]; assumption.
+    + subst. right. left. reflexivity.
+Qed.
+
+(* ------------------------------------------------------------------ the innermost listed ancestor *)
+
+Definition anc (p : path) (d : dobj) : bool := path_prefix (dpath d) p && negb (eqb_path (dpath d) p).
+
+Lemma best_parent_gen : forall p ds best,
+  (forall b, best = Some b -> anc p b = true) ->
+  match best_parent p ds best with
+  | Some r => anc p r = true /\ (In r ds \/ best = Some r) /\
+              (forall d, In d ds -> anc p d = true -> length (dpath d) <= length (dpath r)) /\
+              (forall b, best = Some b -> length (dpath b) <= length (dpath r))
+  | None => best = None /\ forall d, In d ds -> anc p d = false
+  end.
+Proof.
+  intros p. induction ds as [|d ds IH]; intros best Hb; cbn.
+  - destruct best as [b|].
+    + split; [apply Hb; reflexivity|]. split; [right; reflexivity|]. split; [intros d []|]. intros b' E. inv E. lia.
+    + split; [reflexivity|]. intros d [].
+  - fold (anc p d). destruct (anc p d) eqn:A.
+    + set (nb := match best with Some b => if (length (dpath b) <=? length (dpath d))%nat then Some d else Some b | None => Some d end).
+      assert (Hnb : forall b, nb = Some b -> anc p b = true).
+      { intros b E. unfold nb in E. destruct best as [b0|]; [|inv E; assumption].
+        destruct (length (dpath b0) <=? length (dpath d))%nat; inv E; [assumption | apply Hb; reflexivity]. }
+      specialize (IH nb Hnb). destruct (best_parent p ds nb) as [r|].
+      * destruct IH as [A1 [A2 [A3 A4]]]. split; [assumption|].
+        assert (Ld : length (dpath d) <= length (dpath r)).
+        { unfold nb in A4. destruct best as [b0|]; [|apply A4; reflexivity].
+          destruct (Nat.leb_spec (length (dpath b0)) (length (dpath d))); [apply A4; reflexivity|].
+          specialize (A4 b0 eq_refl). lia. }
+        split.
+        { destruct A2 as [A2 | A2]; [left; right; assumption|]. unfold nb in A2. destruct best as [b0|]; [|inv A2; left; left; reflexivity].
+          destruct (length (dpath b0) <=? length (dpath d))%nat; inv A2; [left; left; reflexivity | right; reflexivity]. }
+        split.
+        { intros e [He | He] Ae; [subst; assumption | apply A3; assumption]. }
+        { intros b E. subst best. unfold nb in A4. destruct (Nat.leb_spec (length (dpath b)) (length (dpath d))); [lia | apply A4; reflexivity]. }
+      * destruct IH as [E _]. unfold nb in E. destruct best as [b0|]; [destruct (length (dpath b0) <=? length (dpath d))%nat|]; discriminate.
+    + specialize (IH best Hb). destruct (best_parent p ds best) as [r|].
+      * destruct IH as [A1 [A2 [A3 A4]]]. split; [assumption|]. split; [destruct A2; [left; right; assumption | right; assumption]|].
+        split; [|assumption]. intros e [He | He] Ae; [subst; congruence | apply A3; assumption].
+      * destruct IH as [E F]. split; [assumption|]. intros e [He | He]; [subst; assumption | apply F; assumption].
+Qed.
+
+Lemma best_parent_some : forall p ds par, best_parent p ds None = Some par ->
+  anc p par = true /\ In par ds /\ forall d, In d ds -> anc p d = true -> length (dpath d) <= length (dpath par).
+Proof.
+  intros p ds par H. pose proof (best_parent_gen p ds None) as G. rewrite H in G.
+  destruct G as [A1 [A2 [A3 _]]]; [intros b E; discriminate|]. split; [assumption|]. split; [|assumption].
+  destruct A2 as [A2 | A2]; [assumption | discriminate].
+Qed.
+Lemma best_parent_none : forall p ds, best_parent p ds None = None -> forall d, In d ds -> anc p d = false.
+Proof.
+  intros p ds H. pose proof (best_parent_gen p ds None) as G. rewrite H in G. destruct G as [_ G]; [intros b E; discriminate|]. exact G.
+Qed.
+
+Lemma anc_spec : forall p d, anc p d = true -> path_prefix (dpath d) p = true /\ dpath d <> p /\ length (dpath d) < length p.
+Proof.
+  intros p d H. unfold anc in H. apply andb_prop in H. destruct H as [H1 H2]. apply negb_true_iff in H2.
+  assert (N : dpath d <> p) by (intros E; rewrite E in H2; rewrite eqb_path_refl in H2; discriminate).
+  split; [assumption|]. split; [assumption|].
+  pose proof (pp_length _ _ H1). destruct (Nat.eq_dec (length (dpath d)) (length p)); [|lia].
+  exfalso. apply N. apply pp_eq; [assumption | lia].
+Qed.
+Lemma anc_intro : forall p d, path_prefix (dpath d) p = true -> dpath d <> p -> anc p d = true.
+Proof.
+  intros p d H N. unfold anc. rewrite H. cbn. apply negb_true_iff. destruct (eqb_path (dpath d) p) eqn:E; [|reflexivity].
+  apply eqb_path_true in E. contradiction.
+Qed.
+
+(* ------------------------------------------------------------------ the index invariant *)
+
+Definition owner_ok_l (ds : list dobj) : Prop :=
+  forall d x, In d ds -> In x (ditems d) -> oid x = did d /\ opath x = dpath d.
+Definition innermost_l (ds : list dobj) : Prop :=
+  forall d d' x, In d ds -> In d' ds -> In x (ditems d) -> path_prefix (dpath d') (dir_of x) = true ->
+    length (dpath d') <= length (dpath d).
+Definition dinv (ds : list dobj) (n : nat) : Prop :=
+  NoDup (map dpath ds) /\ NoDup (map did ds) /\ (forall d, In d ds -> did d < n) /\ owner_ok_l ds /\ innermost_l ds.
+
+Lemma NoDup_map_inj_on : forall A B (f : A -> B) l a b, NoDup (map f l) -> In a l -> In b l -> f a = f b -> a = b.
+Proof.
+  intros A B f. induction l as [|x l IH]; intros a b N Ha Hb E; [destruct Ha|].
+  cbn in N. inv N. destruct Ha as [Ha | Ha]; destruct Hb as [Hb | Hb]; subst.
+  - reflexivity.
+  - exfalso. apply H1. rewrite E. apply in_map. assumption.
+  - exfalso. apply H1. rewrite <- E. apply in_map. assumption.
+  - apply IH; assumption.
+Qed.
+
+Lemma NoDup_map_filter : forall A B (f : A -> B) q l, NoDup (map f l) -> NoDup (map f (filter q l)).
+Proof.
+  intros A B f q. induction l as [|x l IH]; intros N; cbn; [constructor|].
+  cbn in N. inv N. destruct (q x); [|apply IH; assumption]. cbn. constructor; [|apply IH; assumption].
+  intros H. apply H1. apply in_map_iff in H. destruct H as [y [E Hy]]. apply filter_In in Hy. destruct Hy as [Hy _].
+  rewrite <- E. apply in_map. assumption.
+Qed.
+
+Lemma NoDup_map_transfer : forall A B C (f : A -> B) (g : A -> C) l,
+  NoDup (map f l) -> (forall a b, In a l -> In b l -> g a = g b -> f a = f b) -> NoDup (map g l).
+Proof.
+  intros A B C f g. induction l as [|x l IH]; intros N H; cbn; [constructor|].
+  cbn in N. inv N. constructor.
+  - intros Hi. apply in_map_iff in Hi. destruct Hi as [y [E Hy]]. apply H2. rewrite <- (H y x); [apply in_map; assumption | right; assumption | left; reflexivity | assumption].
+  - apply IH; [assumption|]. intros a b Ha Hb. apply H; right; assumption.
+Qed.
+
+Lemma dir_of_owner : forall ds d x, owner_ok_l ds -> In d ds -> In x (ditems d) -> path_prefix (dpath d) (dir_of x) = true.
+Proof. intros ds d x H Hd Hx. destruct (H d x Hd Hx) as [_ E]. unfold dir_of. rewrite E. apply pp_app. Qed.
+
+(* a sub-list of directories (remove, load_from_settings) *)
+Lemma dinv_sub : forall ds n ks, dinv ds n -> (forall e, In e ks -> In e ds) -> NoDup (map dpath ks) -> dinv ks n.
+Proof.
+  intros ds n ks [N1 [N2 [B [O I]]]] S NK. split; [assumption|]. split.
+  - apply (NoDup_map_transfer _ _ _ dpath did ks NK). intros a b Ha Hb E.
+    f_equal. apply (NoDup_map_inj_on _ _ did ds); auto.
+  - split; [intros d Hd; apply B; apply S; assumption|]. split.
+    + intros d x Hd Hx. apply O; [apply S|]; assumption.
+    + intros d d' x Hd Hd' Hx. apply I; auto.
+Qed.
+
+Lemma replace_dir_In : forall nd ds e, In e (replace_dir nd ds) ->
+  (e = nd /\ exists e0, In e0 ds /\ dpath e0 = dpath nd) \/ (In e ds /\ dpath e <> dpath nd).
+Proof.
+  intros nd ds e H. unfold replace_dir in H. apply in_map_iff in H. destruct H as [e0 [E H]].
+  destruct (eqb_path (dpath e0) (dpath nd)) eqn:P.
+  - apply eqb_path_true in P. left. split; [symmetry; assumption|]. exists e0. auto.
+  - right. subst e0. split; [assumption|]. intros Q. rewrite Q in P. rewrite eqb_path_refl in P. discriminate.
+Qed.
+
+Lemma replace_dir_paths : forall nd ds, map dpath (replace_dir nd ds) = map dpath ds.
+Proof.
+  intros nd ds. unfold replace_dir. rewrite map_map. apply map_ext_in. intros e _.
+  destruct (eqb_path (dpath e) (dpath nd)) eqn:P; [|reflexivity]. apply eqb_path_true in P. symmetry. assumption.
+Qed.
+
+Lemma replace_dir_dids : forall nd ds d, NoDup (map dpath ds) -> In d ds -> dpath nd = dpath d -> did nd = did d ->
+  map did (replace_dir nd ds) = map did ds.
+Proof.
+  intros nd ds d N Hd P I. unfold replace_dir. rewrite map_map. apply map_ext_in. intros e He.
+  destruct (eqb_path (dpath e) (dpath nd)) eqn:Q; [|reflexivity]. apply eqb_path_true in Q.
+  assert (e = d) by (apply (NoDup_map_inj_on _ _ dpath ds); auto; congruence). subst e. assumption.
+Qed.
+
+(* one listed directory is mutated in place: same identity and path, new settings or items *)
+Lemma dinv_replace : forall ds n d nd, dinv ds n -> In d ds -> did nd = did d -> dpath nd = dpath d ->
+  (forall x, In x (ditems nd) -> oid x = did d /\ opath x = dpath d) ->
+  (forall x d', In x (ditems nd) -> In d' ds -> path_prefix (dpath d') (dir_of x) = true -> length (dpath d') <= length (dpath d)) ->
+  dinv (replace_dir nd ds) n.
+Proof.
+  intros ds n d nd [N1 [N2 [B [O I]]]] Hd Ei Ep HO HI.
+  assert (PathOf : forall e, In e (replace_dir nd ds) -> exists e0, In e0 ds /\ dpath e0 = dpath e /\ did e0 = did e).
+  { intros e He. apply replace_dir_In in He. destruct He as [[E [e0 [H0 P0]]] | [He _]].
+    - subst e. exists d. split; [assumption|]. split; congruence.
+    - exists e. auto. }
+  split; [rewrite replace_dir_paths; assumption|].
+  split; [rewrite (replace_dir_dids nd ds d); assumption|].
+  split; [intros e He; destruct (PathOf e He) as [e0 [H0 [_ E]]]; rewrite <- E; apply B; assumption|].
+  split.
+  - intros e x He Hx. apply replace_dir_In in He. destruct He as [[E _] | [He _]].
+    + subst e. rewrite Ei, Ep. apply HO. assumption.
+    + apply O; assumption.
+  - intros e e' x He He' Hx Hp. destruct (PathOf e' He') as [e0' [H0' [P0' _]]]. rewrite <- P0' in *.
+    apply replace_dir_In in He. destruct He as [[E _] | [He _]].
+    + subst e. rewrite Ep. apply (HI x e0'); assumption.
+    + apply (I e e0' x); assumption.
+Qed.
+
+Lemma NoDup_app_snoc : forall A (l : list A) a, NoDup l -> ~ In a l -> NoDup (l ++ [a]).
+Proof.
+  intros A. induction l as [|x l IH]; intros a N H; cbn; [constructor; [intros []|constructor]|].
+  inv N. constructor.
+  - intros Hi. apply in_app_or in Hi. destruct Hi as [Hi | [Hi | []]]; [contradiction|]. subst. apply H. left. reflexivity.
+  - apply IH; [assumption|]. intros Hi. apply H. right. assumption.
+Qed.
+
+(* a new directory is appended *)
+Lemma dinv_snoc : forall ds n nd, dinv ds n -> did nd = n -> (forall d, In d ds -> dpath d <> dpath nd) ->
+  (forall x, In x (ditems nd) -> oid x = n /\ opath x = dpath nd) ->
+  (forall x d', In x (ditems nd) -> In d' ds -> path_prefix (dpath d') (dir_of x) = true -> length (dpath d') <= length (dpath nd)) ->
+  (forall d x, In d ds -> In x (ditems d) -> path_prefix (dpath nd) (dir_of x) = true -> length (dpath nd) <= length (dpath d)) ->
+  dinv (ds ++ [nd]) (S n).
+Proof.
+  intros ds n nd [N1 [N2 [B [O I]]]] Ei Fresh HO HA HB.
+  split.
+  { rewrite map_app. cbn. apply NoDup_app_snoc; [assumption|]. intros H. apply in_map_iff in H. destruct H as [d [E Hd]]. exact (Fresh d Hd E). }
+  split.
+  { rewrite map_app. cbn. apply NoDup_app_snoc; [assumption|]. intros H. apply in_map_iff in H. destruct H as [d [E Hd]]. specialize (B d Hd). lia. }
+  split.
+  { intros d Hd. apply in_app_or in Hd. destruct Hd as [Hd | [Hd | []]]; [specialize (B d Hd); lia | subst; lia]. }
+  split.
+  - intros d x Hd Hx. apply in_app_or in Hd. destruct Hd as [Hd | [Hd | []]]; [apply O; assumption|]. subst d. rewrite Ei. apply HO. assumption.
+  - intros d d' x Hd Hd' Hx Hp. apply in_app_or in Hd. apply in_app_or in Hd'.
+    destruct Hd as [Hd | [Hd | []]]; destruct Hd' as [Hd' | [Hd' | []]]; subst.
+    + apply (I d d' x); assumption.
+    + apply (HB d x); assumption.
+    + apply (HA x d'); assumption.
+    + lia.
+Qed.
+
+Definition sinv (s : state) : Prop := dinv (listed s) (next_id s).
+
+Lemma build_listed : forall its s, listed (build_term_map s its) = listed s /\ next_id (build_term_map s its) = next_id s.
+Proof. unfold build_term_map. induction its as [|x its IH]; intros s; cbn; [auto|]. destruct (IH (index_item s x)) as [A B]. rewrite A, B. auto. Qed.
+Lemma fold_build_listed : forall ds s, listed (fold_left (fun st d => build_term_map st (ditems d)) ds s) = listed s /\
+  next_id (fold_left (fun st d => build_term_map st (ditems d)) ds s) = next_id s.
+Proof.
+  induction ds as [|d ds IH]; intros s; cbn; [auto|]. destruct (IH (build_term_map s (ditems d))) as [A B].
+  destruct (build_listed (ditems d) s) as [C D]. rewrite A, B, C, D. auto.
+Qed.
+Lemma rebuild_listed : forall s, listed (rebuild s) = listed s /\ next_id (rebuild s) = next_id s.
+Proof. intros s. unfold rebuild. destruct (fold_build_listed (listed s) (mkState (listed s) [] [] (next_id s))) as [A B]. rewrite A, B. auto. Qed.
+
+Lemma sinv_ext : forall s s', listed s' = listed s -> next_id s' = next_id s -> sinv s -> sinv s'.
+Proof. intros s s' A B H. unfold sinv. rewrite A, B. exact H. Qed.
+
+Lemma find_listed_none : forall p ds, find_listed p ds = None -> forall d, In d ds -> dpath d <> p.
+Proof.
+  intros p ds H d Hd E. unfold find_listed in H. pose proof (find_none _ _ H d Hd) as F. cbn in F.
+  rewrite E in F. rewrite eqb_path_refl in F. discriminate.
+Qed.
+Lemma find_listed_path : forall p ds d, find_listed p ds = Some d -> dpath d = p /\ In d ds.
+Proof. unfold find_listed. intros p ds d H. apply find_some in H. destruct H as [H1 H2]. apply eqb_path_true in H2. tauto. Qed.
+
+Lemma dinv_mono : forall ds n m, dinv ds n -> n <= m -> dinv ds m.
+Proof. intros ds n m [A [B [C D]]] L. split; [assumption|]. split; [assumption|]. split; [|assumption]. intros d Hd. specialize (C d Hd). lia. Qed.
+
+Lemma sinv_add : forall s p a m us, sinv s -> sinv (add_raw s p a m us).
+Proof.
+  intros s p a m us H. unfold add_raw. destruct (find_listed p (listed s)) eqn:F; [assumption|].
+  pose proof (find_listed_none p (listed s) F) as Fresh.
+  pose proof H as [N1 [N2 [B [O I]]]].
+  destruct (best_parent p (listed s) None) as [par|] eqn:BP.
+  - destruct (best_parent_some p (listed s) par BP) as [A [Hpar Max]].
+    destruct (anc_spec p par A) as [PP [NE LT]].
+    set (par' := set_items par (filter (fun x => negb (under p x)) (ditems par))).
+    set (nd0 := mkDir (next_id s) p a m us []).
+    set (moved := union_eq [] (map (rehome nd0) (filter (under p) (ditems par)))).
+    unfold sinv. destruct (build_listed moved (mkState (replace_dir par' (listed s) ++ [set_items nd0 moved]) (keys s) (indexed s) (S (next_id s)))) as [L1 L2].
+    rewrite L1, L2. cbn [listed next_id].
+    assert (D1 : dinv (replace_dir par' (listed s)) (next_id s)).
+    { apply (dinv_replace (listed s) (next_id s) par par'); auto.
+      - intros x Hx. cbn in Hx. apply filter_In in Hx. destruct Hx as [Hx _]. apply O; assumption.
+      - intros x d' Hx Hd' Hp. cbn in Hx. apply filter_In in Hx. destruct Hx as [Hx _]. apply (I par d' x); assumption. }
+    assert (MovedFrom : forall x, In x moved -> exists x0, In x0 (ditems par) /\ under p x0 = true /\ x = rehome nd0 x0).
+    { intros x Hx. unfold moved in Hx. apply union_eq_In in Hx. destruct Hx as [[] | Hx].
+      apply in_map_iff in Hx. destruct Hx as [x0 [E Hx0]]. apply filter_In in Hx0. exists x0. destruct Hx0. auto. }
+    apply dinv_snoc; auto.
+    + intros d Hd. cbn. apply replace_dir_In in Hd. destruct Hd as [[E _] | [Hd _]]; [subst d; cbn; assumption | apply Fresh; assumption].
+    + intros x Hx. cbn in Hx. destruct (MovedFrom x Hx) as [x0 [H0 [U E]]]. subst x. cbn. auto.
+    + intros x d' Hx Hd' Hp. cbn in Hx. destruct (MovedFrom x Hx) as [x0 [H0 [U E]]]. subst x.
+      destruct (rehome_spec nd0 x0 U) as [DO _]. rewrite DO in Hp. cbn [dpath set_items nd0].
+      assert (EX : exists e, In e (listed s) /\ dpath e = dpath d').
+      { apply replace_dir_In in Hd'. destruct Hd' as [[E _] | [Hd' _]]; [subst d'; exists par; auto | exists d'; auto]. }
+      destruct EX as [e [He Pe]]. rewrite <- Pe in *. pose proof (I par e x0 Hpar He H0 Hp). cbn. lia.
+    + intros d x Hd Hx Hp. cbn [dpath set_items nd0] in *. apply replace_dir_In in Hd. destruct Hd as [[E _] | [Hd NP]].
+      * subst d. cbn in Hx. apply filter_In in Hx. destruct Hx as [_ Hx]. unfold under in Hx. rewrite Hp in Hx. discriminate.
+      * cbn in NP. destruct (Nat.le_gt_cases (length p) (length (dpath d))) as [|G]; [assumption|]. exfalso.
+        pose proof (dir_of_owner _ d x O Hd Hx) as PD.
+        assert (PDp : path_prefix (dpath d) p = true) by (apply (pp_cmp _ _ (dir_of x)); auto; lia).
+        assert (Ad : anc p d = true) by (apply anc_intro; [assumption | intros E; rewrite E in G; lia]).
+        pose proof (Max d Hd Ad) as M1.
+        assert (PPx : path_prefix (dpath par) (dir_of x) = true) by (eapply pp_trans; eassumption).
+        pose proof (I d par x Hd Hpar Hx PPx) as M2.
+        assert (PE : path_prefix (dpath d) (dpath par) = true) by (apply (pp_cmp _ _ p); auto).
+        apply NP. apply pp_eq; [assumption | lia].
+  - unfold sinv. cbn [listed next_id].
+    apply dinv_snoc; [exact H | reflexivity | | | |].
+    + intros d Hd. cbn. apply Fresh. assumption.
+    + intros x [].
+    + intros x d' [].
+    + intros d x Hd Hx Hp. cbn in *. destruct (Nat.le_gt_cases (length p) (length (dpath d))) as [|G]; [assumption|]. exfalso.
+      pose proof (dir_of_owner _ d x O Hd Hx) as PD.
+      assert (PDp : path_prefix (dpath d) p = true) by (apply (pp_cmp _ _ (dir_of x)); auto; lia).
+      assert (Ad : anc p d = true) by (apply anc_intro; [assumption | intros E; rewrite E in G; lia]).
+      rewrite (best_parent_none p (listed s) BP d Hd) in Ad. discriminate.
+Qed.
+
+Lemma sinv_update : forall s p m us, sinv s -> sinv (update_raw s p m us).
+Proof.
+  intros s p m us H. unfold update_raw. destruct (find_listed p (listed s)) as [d|] eqn:F; [|assumption].
+  destruct (find_listed_path _ _ _ F) as [_ Hd]. pose proof H as [N1 [N2 [B [O I]]]].
+  unfold sinv. cbn [listed next_id]. apply (dinv_replace (listed s) (next_id s) d); [exact H | exact Hd | reflexivity | reflexivity | |].
+  - intros x Hx. cbn in Hx. apply O; assumption.
+  - intros x d' Hx Hd' Hp. cbn in Hx. apply (I d d' x); assumption.
+Qed.
+
+Lemma filter_sub : forall A (q : A -> bool) l e, In e (filter q l) -> In e l.
+Proof. intros A q l e H. apply filter_In in H. tauto. Qed.
+
+Lemma sinv_remove : forall s p, sinv s -> sinv (remove_raw s p).
+Proof.
+  intros s p H. unfold remove_raw. destruct (find_listed p (listed s)) as [d|] eqn:F; [|assumption].
+  destruct (find_listed_path _ _ _ F) as [Pd Hd]. pose proof H as [N1 [N2 [B [O I]]]].
+  set (rest := filter (fun e => negb (eqb_path (dpath e) p)) (listed s)).
+  assert (DR : dinv rest (next_id s)).
+  { apply (dinv_sub (listed s)); [assumption | intros e He; eapply filter_sub; exact He | apply NoDup_map_filter; assumption]. }
+  assert (RestNe : forall e, In e rest -> In e (listed s) /\ dpath e <> p).
+  { intros e He. apply filter_In in He. destruct He as [He Q]. split; [assumption|]. intros E. rewrite E in Q. rewrite eqb_path_refl in Q. discriminate. }
+  eapply sinv_ext; [apply rebuild_listed | apply rebuild_listed |]. unfold sinv. cbn [listed next_id].
+  destruct (best_parent p rest None) as [par|] eqn:BP; [|assumption].
+  destruct (best_parent_some p rest par BP) as [A [Hpar Max]].
+  destruct (anc_spec p par A) as [PP [NE LT]].
+  destruct (RestNe par Hpar) as [HparL _].
+  assert (Under : forall x0, In x0 (ditems d) -> path_prefix (dpath par) (dir_of x0) = true).
+  { intros x0 H0. apply (pp_trans _ p); [assumption|]. rewrite <- Pd. apply (dir_of_owner (listed s)); assumption. }
+  apply (dinv_replace rest (next_id s) par); [exact DR | exact Hpar | reflexivity | reflexivity | |].
+  - intros x Hx. cbn in Hx. apply union_eq_In in Hx. destruct Hx as [Hx | Hx]; [apply O; assumption|].
+    apply in_map_iff in Hx. destruct Hx as [x0 [E H0]]. subst x. cbn. auto.
+  - intros x d' Hx Hd' Hp. cbn in Hx. destruct (RestNe d' Hd') as [Hd'L NP].
+    apply union_eq_In in Hx. destruct Hx as [Hx | Hx]; [apply (I par d' x); assumption|].
+    apply in_map_iff in Hx. destruct Hx as [x0 [E H0]]. subst x.
+    destruct (rehome_spec par x0 (Under x0 H0)) as [DO _]. rewrite DO in Hp.
+    pose proof (I d d' x0 Hd Hd'L H0 Hp) as L1. rewrite Pd in L1.
+    assert (PD : path_prefix p (dir_of x0) = true) by (rewrite <- Pd; apply (dir_of_owner (listed s)); assumption).
+    assert (P1 : path_prefix (dpath d') p = true) by (apply (pp_cmp _ _ (dir_of x0)); assumption).
+    apply Max; [assumption|]. apply anc_intro; assumption.
+Qed.
+
+Lemma nodup_files_spec : forall disk seen,
+  NoDup (map fst (nodup_files seen disk)) /\
+  (forall f, In f (nodup_files seen disk) -> In f disk /\ ~ In (fst f) seen).
+Proof.
+  induction disk as [|f disk IH]; intros seen; cbn; [split; [constructor | intros f []]|].
+  destruct (existsb (eqb_path (fst f)) seen) eqn:E.
+  - destruct (IH seen) as [A B]. split; [assumption|]. intros g Hg. destruct (B g Hg). split; [right|]; assumption.
+  - destruct (IH (fst f :: seen)) as [A B]. split.
+    + cbn. constructor; [|assumption]. intros Hi. apply in_map_iff in Hi. destruct Hi as [g [Eg Hg]].
+      destruct (B g Hg) as [_ N]. apply N. left. symmetry. assumption.
+    + intros g [Hg | Hg].
+      * subst g. split; [left; reflexivity|]. intros Hi. assert (X : existsb (eqb_path (fst f)) seen = true); [|congruence].
+        apply existsb_exists. exists (fst f). split; [assumption | apply eqb_path_refl].
+      * destruct (B g Hg) as [B1 B2]. split; [right; assumption|]. intros Hi. apply B2. right. assumption.
 Qed.
 
 (* the files scan_directory picks for directory d: below d, and not inside a nested shared directory *)
@@ -507,11 +949,10 @@ Lemma scan_file_spec : forall d ch f x, In x (scan_file d ch f) ->
 Proof.
   intros d ch f x H. unfold scan_file in H.
   destruct (skipn (length (dpath d)) (fst f)) as [|r rel] eqn:E; [destruct H|].
-  destruct (path_prefix (dpath d) (fst f)) eqn:P; cbn in H; [|destruct H].
-  destruct (existsb (fun c0 => path_prefix (dpath c0) (removelast (fst f))) ch) eqn:X; cbn in H; [destruct H|].
+  destruct (path_prefix (dpath d) (fst f)) eqn:P; cbn [andb] in H; [|destruct H].
+  destruct (existsb (fun c0 => path_prefix (dpath c0) (removelast (fst f))) ch) eqn:X; cbn [negb] in H; [destruct H|].
   destruct H as [H | []]. subst x. unfold in_region. rewrite P, E, X. split; [repeat split; discriminate|].
-  split; [|cbn; tauto]. unfold abs_path. cbn [opath isub iname].
-  change (dpath d ++ removelast (r :: rel) ++ [last (r :: rel) []] = fst f).
+  split; [|cbn; tauto]. unfold abs_path, dir_of. cbn [opath isub iname]. rewrite <- app_assoc.
   rewrite <- (app_removelast_last (l := r :: rel) []) by discriminate.
   rewrite <- E. symmetry. apply is_prefix_split. assumption.
 Qed.
@@ -521,6 +962,9 @@ Proof.
   intros d ch f [P [E X]]. unfold scan_file. destruct (skipn (length (dpath d)) (fst f)) as [|r rel]; [contradiction|].
   rewrite P, X. cbn. eexists. left. reflexivity.
 Qed.
+
+Lemma abs_dir : forall x, removelast (abs_path x) = dir_of x.
+Proof. intros x. unfold abs_path. apply removelast_last. Qed.
 
 Lemma reconcile_In : forall old sc y, In y (reconcile old sc) -> exists x, In x sc /\ (y = x \/ (In y old /\ item_eq x y = true)).
 Proof.
@@ -539,30 +983,328 @@ Qed.
 Definition scanned_items (s : state) (d : dobj) (disk : list file) : list item :=
   reconcile (ditems d) (scan_set d (children_of d (listed s)) disk).
 
+Lemma scan_raw_listed : forall s p disk d, find_listed p (listed s) = Some d ->
+  listed (scan_raw s p disk) = replace_dir (set_items d (scanned_items s d disk)) (listed s) /\
+  next_id (scan_raw s p disk) = next_id s.
+Proof.
+  intros s p disk d F. unfold scan_raw. rewrite F. fold (scanned_items s d disk).
+  set (s1 := prune _). unfold cleanup. cbn [listed next_id].
+  destruct (build_listed (scanned_items s d disk) s1) as [A B]. rewrite A, B. split; reflexivity.
+Qed.
+
+Lemma sinv_scan : forall s p disk, sinv s -> sinv (scan_raw s p disk).
+Proof.
+  intros s p disk H. destruct (find_listed p (listed s)) as [d|] eqn:F; [|unfold scan_raw; rewrite F; assumption].
+  destruct (find_listed_path _ _ _ F) as [Pd Hd]. pose proof H as [N1 [N2 [B [O I]]]].
+  destruct (scan_raw_listed s p disk d F) as [L1 L2]. unfold sinv. rewrite L1, L2.
+  assert (Spec : forall y, In y (scanned_items s d disk) -> exists x f, In x (scan_file d (children_of d (listed s)) f) /\
+            opath y = opath x /\ dir_of y = dir_of x /\ (y = x \/ In y (ditems d))).
+  { intros y Hy. destruct (reconcile_In _ _ y Hy) as [x [Hx E]]. unfold scan_set in Hx. apply in_flat_map in Hx.
+    destruct Hx as [f [_ Hx]]. exists x, f. split; [assumption|]. destruct E as [E | [E1 E2]]; [subst; auto|].
+    apply item_eq_abs in E2. destruct E2 as [_ [_ [E3 [_ E5]]]]. auto. }
+  apply (dinv_replace (listed s) (next_id s) d); [exact H | exact Hd | reflexivity | reflexivity | |].
+  - intros y Hy. cbn in Hy. destruct (Spec y Hy) as [x [f [Hx [E1 [E2 E3]]]]].
+    destruct E3 as [E3 | E3]; [|apply O; assumption]. subst y.
+    destruct (scan_file_spec _ _ _ _ Hx) as [_ [_ [_ [A1 A2]]]]. auto.
+  - intros y d' Hy Hd' Hp. cbn in Hy. destruct (Spec y Hy) as [x [f [Hx [E1 [E2 _]]]]]. rewrite E2 in Hp.
+    destruct (scan_file_spec _ _ _ _ Hx) as [[R1 [R2 R3]] [A0 [_ [A1 _]]]].
+    assert (DX : dir_of x = removelast (fst f)) by (rewrite <- A0; symmetry; apply abs_dir).
+    destruct (Nat.le_gt_cases (length (dpath d')) (length (dpath d))) as [|G]; [assumption|]. exfalso.
+    assert (PDx : path_prefix (dpath d) (dir_of x) = true) by (unfold dir_of; rewrite A1; apply pp_app).
+    assert (PC : path_prefix (dpath d) (dpath d') = true) by (apply (pp_cmp _ _ (dir_of x)); auto; lia).
+    assert (In d' (children_of d (listed s))).
+    { unfold children_of. apply filter_In. split; [assumption|]. rewrite PC.
+      destruct (eqb_path (dpath d') (dpath d)) eqn:Q; [apply eqb_path_true in Q; rewrite Q in G; lia | reflexivity]. }
+    assert (X : existsb (fun ch => path_prefix (dpath ch) (removelast (fst f))) (children_of d (listed s)) = true).
+    { apply existsb_exists. exists d'. split; [assumption|]. rewrite <- DX. assumption. }
+    congruence.
+Qed.
+
+Definition entries_ok (es : list entry) : Prop := NoDup (map e_path es).
+Definition op_ok (o : op) : Prop := match o with LoadSettings es => entries_ok es | _ => True end.
+
+Lemma sinv_load_entry : forall s e, sinv s -> sinv (load_entry s e).
+Proof.
+  intros s [[[p a] m] us] H. unfold load_entry. destruct (find_listed p (listed s)); [apply sinv_update | apply sinv_add]; assumption.
+Qed.
+
+Lemma keep_nodup : forall ds es, NoDup (map e_path es) ->
+  NoDup (map dpath (flat_map (fun e : entry => match find_listed (e_path e) ds with Some d => [d] | None => [] end) es)).
+Proof.
+  intros ds. induction es as [|en es IH]; intros OK; cbn; [constructor|].
+  cbn in OK. inv OK. rewrite map_app. destruct (find_listed (e_path en) ds) as [d|] eqn:F; cbn; [|apply IH; assumption].
+  constructor; [|apply IH; assumption]. intros Hi. apply in_map_iff in Hi. destruct Hi as [e [E He]].
+  apply in_flat_map in He. destruct He as [en' [Hen' He]].
+  destruct (find_listed (e_path en') ds) as [d'|] eqn:F'; [|destruct He]. destruct He as [He | []]. subst e.
+  apply H1. destruct (find_listed_path _ _ _ F) as [Q1 _]. destruct (find_listed_path _ _ _ F') as [Q2 _].
+  rewrite <- Q1, <- E, Q2. apply in_map. assumption.
+Qed.
+
+Lemma sinv_load : forall s es, entries_ok es -> sinv s -> sinv (load_raw s es).
+Proof.
+  intros s es OK H. unfold load_raw.
+  assert (G : forall es s, sinv s -> sinv (fold_left load_entry es s)).
+  { induction es0 as [|e es0 IH]; intros s0 H0; cbn; [assumption|]. apply IH. apply sinv_load_entry. assumption. }
+  specialize (G es s H). set (s1 := fold_left load_entry es s) in *.
+  eapply sinv_ext; [apply rebuild_listed | apply rebuild_listed |]. unfold sinv. cbn [listed next_id].
+  apply (dinv_sub (listed s1)); [exact G | | apply keep_nodup; exact OK].
+  intros e He. apply in_flat_map in He. destruct He as [en [_ He]].
+  destruct (find_listed (e_path en) (listed s1)) as [d|] eqn:F; [|destruct He]. destruct He as [He | []]. subst e.
+  apply (find_listed_path _ _ _ F).
+Qed.
+
+Lemma sinv_step : forall s o, op_ok o -> sinv s -> sinv (step s o).
+Proof.
+  intros s o OK H. unfold step. eapply sinv_ext; [reflexivity | reflexivity |]. destruct o; cbn.
+  - apply sinv_add; assumption.
+  - apply sinv_remove; assumption.
+  - apply sinv_update; assumption.
+  - apply sinv_scan; assumption.
+  - apply sinv_load; assumption.
+Qed.
+
+Definition ops_ok (ops : list op) : Prop := Forall op_ok ops.
+
+Lemma sinv_run_from : forall ops s, ops_ok ops -> sinv s -> sinv (run_from s ops).
+Proof.
+  unfold run_from. induction ops as [|o ops IH]; intros s OK H; cbn; [assumption|]. inv OK. apply IH; [assumption|].
+  apply sinv_step; assumption.
+Qed.
+
+Lemma sinv_run : forall ops, ops_ok ops -> sinv (run ops).
+Proof.
+  intros ops OK. apply sinv_run_from; [assumption|]. unfold sinv, init, dinv, owner_ok_l, innermost_l. cbn.
+  split; [constructor|]. split; [constructor|]. split; [intros d []|]. split; [intros d x []|intros d d' x []].
+Qed.
+
+(* ------------------------------------------------------------------ no directory holds a file twice *)
+
+Definition nodup_l (ds : list dobj) : Prop := forall d, In d ds -> NoDup (map abs_path (ditems d)).
+
+Lemma nodup_union : forall b a, NoDup (map abs_path a) -> NoDup (map abs_path b) ->
+  (forall x y, In x a -> In y b -> abs_path x <> abs_path y) -> NoDup (map abs_path (union_eq a b)).
+Proof.
+  induction b as [|y b IH]; intros a Na Nb D; cbn; [assumption|]. cbn in Nb. inv Nb.
+  assert (R : NoDup (map abs_path (union_eq a b))) by (apply IH; auto; intros x z Hx Hz; apply D; [assumption | right; assumption]).
+  destruct (existsb (item_eq y) (union_eq a b)); [assumption|].
+  rewrite map_app. cbn. apply NoDup_app_snoc; [assumption|]. intros Hi. apply in_map_iff in Hi. destruct Hi as [z [E Hz]].
+  apply union_eq_In in Hz. destruct Hz as [Hz | Hz].
+  - exact (D z y Hz (or_introl eq_refl) E).
+  - apply H1. rewrite <- E. apply in_map. assumption.
+Qed.
+
+Lemma map_abs_rehome : forall t l, (forall x, In x l -> path_prefix (dpath t) (dir_of x) = true) ->
+  map abs_path (map (rehome t) l) = map abs_path l.
+Proof. intros t l H. rewrite map_map. apply map_ext_in. intros x Hx. apply (rehome_spec t x (H x Hx)). Qed.
+
+Lemma map_abs_reconcile : forall old sc, map abs_path (reconcile old sc) = map abs_path sc.
+Proof.
+  intros old sc. unfold reconcile. rewrite map_map. apply map_ext. intros x.
+  destruct (find (item_eq x) old) as [o|] eqn:F; [|reflexivity]. apply find_some in F. destruct F as [_ F].
+  apply item_eq_abs in F. symmetry. tauto.
+Qed.
+
+Lemma nodup_scan_files : forall d ch l, NoDup (map fst l) -> NoDup (map abs_path (flat_map (scan_file d ch) l)).
+Proof.
+  intros d ch. induction l as [|f l IH]; intros N; cbn; [constructor|]. cbn in N. inv N. rewrite map_app.
+  assert (T : NoDup (map abs_path (flat_map (scan_file d ch) l))) by (apply IH; assumption).
+  destruct (scan_file d ch f) as [|x [|x' r]] eqn:E.
+  - assumption.
+  - cbn. constructor; [|assumption]. intros Hi. apply in_map_iff in Hi. destruct Hi as [z [Ez Hz]].
+    apply in_flat_map in Hz. destruct Hz as [g [Hg Hz]].
+    assert (Hx : In x (scan_file d ch f)) by (rewrite E; left; reflexivity).
+    destruct (scan_file_spec _ _ _ _ Hx) as [_ [A _]]. destruct (scan_file_spec _ _ _ _ Hz) as [_ [A' _]].
+    apply H1. rewrite <- A, <- Ez, A'. apply in_map. assumption.
+  - exfalso. unfold scan_file in E. destruct (skipn (length (dpath d)) (fst f)); [discriminate|].
+    destruct (path_prefix (dpath d) (fst f) && negb (existsb (fun c0 => path_prefix (dpath c0) (removelast (fst f))) ch)); discriminate.
+Qed.
+
+Lemma nodup_replace : forall nd ds, nodup_l ds -> NoDup (map abs_path (ditems nd)) -> nodup_l (replace_dir nd ds).
+Proof.
+  intros nd ds H N e He. apply replace_dir_In in He. destruct He as [[E _] | [He _]]; [subst; assumption | apply H; assumption].
+Qed.
+
+Definition sinv2 (s : state) : Prop := sinv s /\ nodup_l (listed s).
+
+Lemma sinv2_ext : forall s s', listed s' = listed s -> next_id s' = next_id s -> sinv2 s -> sinv2 s'.
+Proof. intros s s' A B [H1 H2]. split; [eapply sinv_ext; eassumption | rewrite A; assumption]. Qed.
+
+Lemma nodup_add : forall s p a m us, sinv2 s -> nodup_l (listed (add_raw s p a m us)).
+Proof.
+  intros s p a m us [H ND]. unfold add_raw. destruct (find_listed p (listed s)) eqn:F; [assumption|].
+  pose proof H as [N1 [N2 [B [O I]]]].
+  destruct (best_parent p (listed s) None) as [par|] eqn:BP.
+  - destruct (best_parent_some p (listed s) par BP) as [A [Hpar Max]].
+    set (par' := set_items par (filter (fun x => negb (under p x)) (ditems par))).
+    set (nd0 := mkDir (next_id s) p a m us []).
+    set (moved := union_eq [] (map (rehome nd0) (filter (under p) (ditems par)))).
+    rewrite (proj1 (build_listed moved _)). cbn [listed].
+    intros e He. apply in_app_or in He. destruct He as [He | [He | []]].
+    + revert e He. apply nodup_replace; [assumption|]. cbn. apply NoDup_map_filter. apply ND. assumption.
+    + subst e. cbn. unfold moved. apply nodup_union; [constructor | | intros x y []].
+      rewrite map_abs_rehome.
+      * apply NoDup_map_filter. apply ND. assumption.
+      * intros x Hx. apply filter_In in Hx. destruct Hx as [_ U]. exact U.
+  - cbn [listed]. intros e He. apply in_app_or in He. destruct He as [He | [He | []]]; [apply ND; assumption | subst e; cbn; constructor].
+Qed.
+
+Lemma nodup_update : forall s p m us, sinv2 s -> nodup_l (listed (update_raw s p m us)).
+Proof.
+  intros s p m us [H ND]. unfold update_raw. destruct (find_listed p (listed s)) as [d|] eqn:F; [|assumption].
+  destruct (find_listed_path _ _ _ F) as [_ Hd]. cbn [listed]. apply nodup_replace; [assumption|]. cbn. apply ND. assumption.
+Qed.
+
+Lemma nodup_remove : forall s p, sinv2 s -> nodup_l (listed (remove_raw s p)).
+Proof.
+  intros s p [H ND]. unfold remove_raw. destruct (find_listed p (listed s)) as [d|] eqn:F; [|assumption].
+  destruct (find_listed_path _ _ _ F) as [Pd Hd]. pose proof H as [N1 [N2 [B [O I]]]].
+  rewrite (proj1 (rebuild_listed _)). cbn [listed].
+  set (rest := filter (fun e => negb (eqb_path (dpath e) p)) (listed s)).
+  assert (NR : nodup_l rest) by (intros e He; apply ND; eapply filter_sub; exact He).
+  destruct (best_parent p rest None) as [par|] eqn:BP; [|assumption].
+  destruct (best_parent_some p rest par BP) as [A [Hpar Max]].
+  destruct (anc_spec p par A) as [PP [NE LT]].
+  assert (HparL : In par (listed s)) by (eapply filter_sub; exact Hpar).
+  assert (Under : forall x0, In x0 (ditems d) -> path_prefix (dpath par) (dir_of x0) = true).
+  { intros x0 H0. apply (pp_trans _ p); [assumption|]. rewrite <- Pd. apply (dir_of_owner (listed s)); assumption. }
+  apply nodup_replace; [assumption|]. cbn. apply nodup_union.
+  - apply ND. assumption.
+  - rewrite map_abs_rehome by assumption. apply ND. assumption.
+  - intros x y Hx Hy E. apply in_map_iff in Hy. destruct Hy as [y0 [Ey Hy0]]. subst y.
+    destruct (rehome_spec par y0 (Under y0 Hy0)) as [_ [AE _]]. rewrite AE in E.
+    assert (DE : dir_of x = dir_of y0) by (unfold abs_path in E; apply app_inj_tail in E; tauto).
+    assert (PD : path_prefix (dpath d) (dir_of x) = true) by (rewrite DE; apply (dir_of_owner (listed s)); assumption).
+    pose proof (I par d x HparL Hd Hx PD) as L. rewrite Pd in L. lia.
+Qed.
+
+Lemma nodup_scan : forall s p disk, sinv2 s -> nodup_l (listed (scan_raw s p disk)).
+Proof.
+  intros s p disk [H ND]. destruct (find_listed p (listed s)) as [d|] eqn:F; [|unfold scan_raw; rewrite F; assumption].
+  rewrite (proj1 (scan_raw_listed s p disk d F)). apply nodup_replace; [assumption|]. cbn.
+  unfold scanned_items. rewrite map_abs_reconcile. unfold scan_set. apply nodup_scan_files. apply nodup_files_spec.
+Qed.
+
+Lemma sinv2_step : forall s o, op_ok o -> sinv2 s -> sinv2 (step s o).
+Proof.
+  intros s o OK H. split; [apply sinv_step; [assumption | apply H]|]. unfold step. cbn [listed prune]. destruct o; cbn [step_raw].
+  - apply nodup_add; assumption.
+  - apply nodup_remove; assumption.
+  - apply nodup_update; assumption.
+  - apply nodup_scan; assumption.
+  - unfold load_raw. rewrite (proj1 (rebuild_listed _)). cbn [listed].
+    assert (G : forall es s, sinv2 s -> sinv2 (fold_left load_entry es s)).
+    { induction es as [|e es IH]; intros s0 H0; cbn; [assumption|]. apply IH. destruct e as [[[p a] m] us]. unfold load_entry.
+      destruct (find_listed p (listed s0)).
+      - split; [apply sinv_update; apply H0 | apply nodup_update; assumption].
+      - split; [apply sinv_add; apply H0 | apply nodup_add; assumption]. }
+    destruct (G entries s H) as [_ N]. intros e He. apply in_flat_map in He. destruct He as [en [_ He]].
+    destruct (find_listed (e_path en) (listed (fold_left load_entry entries s))) as [d|] eqn:F; [|destruct He].
+    destruct He as [He | []]. subst e. apply N. apply (find_listed_path _ _ _ F).
+Qed.
+
+Lemma sinv2_run : forall ops, ops_ok ops -> sinv2 (run ops).
+Proof.
+  intros ops OK. unfold run.
+  assert (G : forall ops s, ops_ok ops -> sinv2 s -> sinv2 (run_from s ops)).
+  { unfold run_from. induction ops0 as [|o ops0 IH]; intros s OK0 H; cbn; [assumption|]. inv OK0. apply IH; [assumption|]. apply sinv2_step; assumption. }
+  apply G; [assumption|]. split; [apply (sinv_run [] (Forall_nil _)) | intros d []].
+Qed.
+
+(* ------------------------------------------------------------------ consequences of the invariant *)
+
+Lemma find_by_did : forall ds d, NoDup (map did ds) -> In d ds -> find (fun e => Nat.eqb (did e) (did d)) ds = Some d.
+Proof.
+  induction ds as [|e ds IH]; intros d N H; [destruct H|]. cbn in N. inv N. cbn.
+  destruct H as [H | H].
+  - subst. rewrite Nat.eqb_refl. reflexivity.
+  - destruct (Nat.eqb (did e) (did d)) eqn:E; [|apply IH; assumption].
+    apply Nat.eqb_eq in E. exfalso. apply H2. rewrite E. apply in_map. assumption.
+Qed.
+
+(* the owner pointer of every held item is the directory that holds it *)
+Lemma owner_pointer : forall ops d x, ops_ok ops -> In d (listed (run ops)) -> In x (ditems d) ->
+  oid x = did d /\ opath x = dpath d /\ find_obj (run ops) (oid x) = Some d.
+Proof.
+  intros ops d x OK Hd Hx. destruct (sinv_run ops OK) as [N1 [N2 [B [O I]]]].
+  destruct (O d x Hd Hx) as [E1 E2]. split; [assumption|]. split; [assumption|].
+  unfold find_obj. rewrite E1. apply find_by_did; assumption.
+Qed.
+
+Lemma app_inj_last : forall A (a b : list A) x y, a ++ [x] = b ++ [y] -> a = b /\ x = y.
+Proof. intros. apply app_inj_tail. assumption. Qed.
+
+(* each file is held at most once across the shared directories, by the innermost one containing it *)
+Lemma index_partition : forall ops, ops_ok ops ->
+  let s := run ops in
+  (forall d x, In d (listed s) -> In x (ditems d) ->
+     path_prefix (dpath d) (dir_of x) = true /\
+     forall d', In d' (listed s) -> path_prefix (dpath d') (dir_of x) = true -> length (dpath d') <= length (dpath d)) /\
+  (forall d d' x y, In d (listed s) -> In d' (listed s) -> In x (ditems d) -> In y (ditems d') ->
+     abs_path x = abs_path y -> d = d') /\
+  (forall d, In d (listed s) -> NoDup (map abs_path (ditems d))).
+Proof.
+  intros ops OK s. destruct (sinv2_run ops OK) as [[N1 [N2 [B [O I]]]] ND]. fold s in N1, N2, B, O, I, ND.
+  split; [|split; [|exact ND]].
+  - intros d x Hd Hx. split; [apply (dir_of_owner (listed s)); assumption|]. intros d' Hd' Hp. apply (I d d' x); assumption.
+  - intros d d' x y Hd Hd' Hx Hy E.
+    assert (DE : dir_of x = dir_of y) by (unfold abs_path in E; apply app_inj_tail in E; tauto).
+    pose proof (dir_of_owner _ d x O Hd Hx) as P1. pose proof (dir_of_owner _ d' y O Hd' Hy) as P2.
+    assert (L1 : length (dpath d') <= length (dpath d)) by (apply (I d d' x); auto; rewrite DE; assumption).
+    assert (L2 : length (dpath d) <= length (dpath d')) by (apply (I d' d y); auto; rewrite <- DE; assumption).
+    apply (NoDup_map_inj_on _ _ dpath (listed s)); auto.
+    apply pp_eq; [|lia]. apply (pp_cmp _ _ (dir_of x)); [assumption | rewrite DE; assumption | lia].
+Qed.
+
+(* what the weak sets hold is held by a listed directory *)
+Lemma held_by_In : forall ds x, held_by ds x = true -> In x (flat_map ditems ds).
+Proof.
+  intros ds x H. unfold held_by in H. apply existsb_exists in H. destruct H as [d [Hd H]].
+  apply existsb_exists in H. destruct H as [y [Hy E]]. apply item_same_eq in E. subst y.
+  apply in_flat_map. exists d. auto.
+Qed.
+
+Lemma indexed_listed : forall ops x, In x (indexed (run ops)) -> In x (listed_items (run ops)).
+Proof.
+  intros ops. unfold run.
+  assert (G : forall ops s, (forall x, In x (indexed s) -> In x (listed_items s)) ->
+                            forall x, In x (indexed (run_from s ops)) -> In x (listed_items (run_from s ops))).
+  { unfold run_from. induction ops0 as [|o ops0 IH]; intros s H; cbn; [assumption|]. apply IH.
+    intros x Hx. unfold step, prune in *. cbn in *. apply filter_In in Hx. destruct Hx as [_ Hx]. apply held_by_In. assumption. }
+  apply G. intros x [].
+Qed.
+
+(* ------------------------------------------------------------------ scan *)
+
+Lemma nodup_files_id : forall disk seen, NoDup (map fst disk) -> (forall f, In f disk -> ~ In (fst f) seen) ->
+  nodup_files seen disk = disk.
+Proof.
+  induction disk as [|f disk IH]; intros seen N H; cbn; [reflexivity|]. cbn in N. inv N.
+  destruct (existsb (eqb_path (fst f)) seen) eqn:E.
+  - exfalso. apply existsb_exists in E. destruct E as [q [Hq E]]. apply eqb_path_true in E. subst q. exact (H f (or_introl eq_refl) Hq).
+  - f_equal. apply IH; [assumption|]. intros g Hg [Q | Q]; [apply H2; rewrite Q; apply in_map; assumption | exact (H g (or_intror Hg) Q)].
+Qed.
+
 (* the item set a scan leaves in the directory = the files of the disk in its region, each with its mtime,
-   named relative to the scanned directory *)
-Lemma scanned_items_exact : forall s d disk,
+   named relative to the scanned directory and pointing at it *)
+Lemma scanned_items_exact : forall s d disk, NoDup (map fst disk) ->
   (forall f, In f disk -> in_region d (children_of d (listed s)) (fst f) ->
      exists y, In y (scanned_items s d disk) /\ abs_path y = fst f /\ imtime y = snd f /\ opath y = dpath d) /\
   (forall y, In y (scanned_items s d disk) ->
      exists f, In f disk /\ in_region d (children_of d (listed s)) (fst f) /\ abs_path y = fst f /\ imtime y = snd f /\ opath y = dpath d).
 Proof.
-  intros s d disk. split.
+  intros s d disk ND. unfold scanned_items, scan_set. rewrite (nodup_files_id disk []) by (auto; intros f _ []). split.
   - intros f Hf R. destruct (scan_file_complete d _ f R) as [x Hx].
-    assert (Hs : In x (scan_set d (children_of d (listed s)) disk)) by (unfold scan_set; apply in_flat_map; exists f; split; assumption).
+    assert (Hs : In x (flat_map (scan_file d (children_of d (listed s))) disk)) by (apply in_flat_map; exists f; split; assumption).
     destruct (reconcile_complete (ditems d) _ x Hs) as [y [Hy E]]. exists y. split; [exact Hy|].
     destruct (scan_file_spec d _ f x Hx) as [_ [A [M [O _]]]].
     destruct E as [E | E]; [subst y; tauto|]. apply item_eq_abs in E. destruct E as [E1 [E2 [E3 _]]].
     rewrite <- E1, <- E2, <- E3. tauto.
   - intros y Hy. destruct (reconcile_In _ _ y Hy) as [x [Hx E]].
-    unfold scan_set in Hx. apply in_flat_map in Hx. destruct Hx as [f [Hf Hx]].
+    apply in_flat_map in Hx. destruct Hx as [f [Hf Hx]].
     destruct (scan_file_spec d _ f x Hx) as [R [A [M [O _]]]]. exists f. split; [assumption|]. split; [assumption|].
     destruct E as [E | [_ E]]; [subst y; tauto|]. apply item_eq_abs in E. destruct E as [E1 [E2 [E3 _]]].
     rewrite <- E1, <- E2, <- E3. tauto.
 Qed.
-
-Lemma build_listed : forall its s, listed (build_term_map s its) = listed s.
-Proof. unfold build_term_map. induction its as [|x its IH]; intros s; cbn; [reflexivity|]. rewrite IH. reflexivity. Qed.
 
 Lemma find_replace : forall p nd ds d, find_listed p ds = Some d -> dpath nd = p -> find_listed p (replace_dir nd ds) = Some nd.
 Proof.
@@ -573,25 +1315,14 @@ Proof.
   - rewrite E. eapply IH; eassumption.
 Qed.
 
-Lemma find_listed_path : forall p ds d, find_listed p ds = Some d -> dpath d = p /\ In d ds.
-Proof. unfold find_listed. intros p ds d H. apply find_some in H. destruct H as [H1 H2]. apply eqb_path_true in H2. tauto. Qed.
-
 Lemma scan_exact : forall s p disk d, find_listed p (listed s) = Some d ->
   exists d', find_listed p (listed (step s (Scan p disk))) = Some d' /\ ditems d' = scanned_items s d disk /\
              dpath d' = p /\ dmode d' = dmode d /\ dusers d' = dusers d.
 Proof.
   intros s p disk d H. exists (set_items d (scanned_items s d disk)).
-  destruct (find_listed_path _ _ _ H) as [Hp _].
-  split; [|cbn; tauto].
-  unfold step. cbn [step_raw]. unfold scan_raw. rewrite H. cbn [listed prune cleanup]. rewrite build_listed. cbn [listed rc_prune].
+  destruct (find_listed_path _ _ _ H) as [Hp _]. split; [|cbn; tauto].
+  unfold step. cbn [step_raw listed prune]. rewrite (proj1 (scan_raw_listed s p disk d H)).
   eapply find_replace; [eassumption|]. cbn. assumption.
-Qed.
-
-(* after a scan, every item of the scanned directory is filed in the term map under (an item equal to) itself *)
-Lemma existsb_item_eq_filter : forall (f : item -> bool) l x, In x l -> f x = true -> existsb (item_eq x) (filter f l) = true.
-Proof.
-  intros f l x H Hf. apply existsb_exists. exists x. split; [apply filter_In; tauto|].
-  unfold item_eq. rewrite !eqb_path_refl, eqb_str_refl, N.eqb_refl. reflexivity.
 Qed.
 
 (* ------------------------------------------------------------------ stats *)
@@ -601,3 +1332,16 @@ Proof.
   intros s. unfold get_stats, listed_items. cbn. induction (listed s) as [|d ds IH]; cbn; [reflexivity|].
   rewrite app_length. rewrite IH. reflexivity.
 Qed.
+
+(* ------------------------------------------------------------------ witnesses for the non-vacuity examples *)
+
+Definition c (s : list nat) : str := map N.of_nat s.
+Definition w_d := c [100]. Definition w_sing := c [115;105;110;103;46;109;112;51]. Definition w_ring := c [114;105;110;103;46;109;112;51].
+Definition w_ing := c [105;110;103].
+Definition ops_f04 : list op :=
+  [Add [w_d] (c [97]) Everyone []; Scan [w_d] [([w_d; w_sing], 5%N); ([w_d; w_ring], 6%N)]].
+Definition q_f04 : query := mkQuery [] [w_ing] [].
+Definition w_P := c [80]. Definition w_C := c [67]. Definition w_top := c [116;111;112]. Definition w_deep := c [100;101;101;112].
+Definition ops_zombie : list op :=
+  [Add [w_P] (c [97]) Everyone []; Scan [w_P] [([w_P; w_top], 5%N); ([w_P; w_C; w_deep], 6%N)];
+   Add [w_P; w_C] (c [98]) Everyone []; Remove [w_P]].
